@@ -35,11 +35,11 @@ def run(ctx):
     mon = convmon.ConvertMonitor(env, ctx)
     conv = env.conv
     watch = kit.LineWatch(ctx, [
-        ("conversions.convert", conv.convert), ("conversions._plan_conversion", conv._plan_conversion),
-        ("conversions._replace_factors", conv._replace_factors), ("conversions._match_factors", conv._match_factors),
-        ("conversions._cancel_factors", conv._cancel_factors), ("conversions._splat", conv._splat),
-        ("conversions._inline_paths", conv._inline_paths), ("conversions._find_path_recursive", conv._find_path_recursive),
-        ("conversions._reduce_dimension", conv._reduce_dimension),
+        ("conversions.convert", conv.convert), ("conversions._plan_conversion", getattr(conv, "_plan_conversion", None)),
+        ("conversions._replace_factors", getattr(conv, "_replace_factors", None)), ("conversions._match_factors", getattr(conv, "_match_factors", None)),
+        ("conversions._cancel_factors", getattr(conv, "_cancel_factors", None)), ("conversions._splat", getattr(conv, "_splat", None)),
+        ("conversions._inline_paths", getattr(conv, "_inline_paths", None)), ("conversions._find_path_recursive", getattr(conv, "_find_path_recursive", None)),
+        ("conversions._reduce_dimension", getattr(conv, "_reduce_dimension", None)),
     ])
     pools, mdl, rng = env.pools, env.mdl, ctx.rng
     if ctx.shard == 0:
